@@ -97,6 +97,11 @@ def main():
             res["status"] = "ERROR"
         else:
             res["status"] = "INCONCLUSIVE"
+        if res["status"] == "INCONCLUSIVE" and STATE.counterexample is not None and STATE.counterexample.get("inputs") is not None:
+            # the assertion failed on some path whose feasibility CrossHair could not settle (approximated string / float operations):
+            # not a verdict - the recorded assignment is handed to the real-stack replay, which alone can turn it into a violation
+            res["candidate"] = True
+            res["messages"].append("assertion failed on a path CrossHair could not confirm; candidate inputs handed to the real-stack replay")
         if STATE.reached == 0 and res["status"] == "CONFIRMED":
             res["status"] = "INCONCLUSIVE"
             res["messages"].append("vacuous: no path reached the assertion")
